@@ -71,7 +71,7 @@ def run_variant(prop: str, v: dict, tier: str = "quick") -> dict:
 
 
 def _tail(out: str, n: int = 12) -> str:
-    lines = [l for l in out.splitlines() if l.startswith(("VIOLATION", "ANALYSIS-ERROR", "  ")) and not l.startswith("  rule ")]
+    lines = [l for l in out.splitlines() if l.startswith(("VIOLATION", "ANALYSIS-ERROR", "  ")) and not l.startswith(("  rule ", "  note", "  control"))]
     return "\n".join(lines[:n])
 
 
